@@ -273,7 +273,7 @@ class Exec:
 
     def binop(self, op, a, b, st, node=None):
         a, b = lift(a), lift(b)
-        seqlike = lambda x: isinstance(x, (PyTup, PyIte)) or (isinstance(x, V) and (x.ty is STR or isinstance(x.ty, (SeqT, ListT, DictT))))
+        seqlike = lambda x: isinstance(x, (PyTup, PyIte, PyCat)) or (isinstance(x, V) and (x.ty is STR or isinstance(x.ty, (SeqT, ListT, DictT))))
         if isinstance(op, ast.Add) and seqlike(a) and seqlike(b):
             return concat(a, b)
         if isinstance(op, ast.Mod) and isinstance(a, V) and a.ty is STR:
@@ -585,6 +585,8 @@ class Exec:
                 return ite(has(recv.t, k), V(ty.val, get(recv.t, k)), dflt)
             if name == "items":
                 return DictItems(recv)
+            if name == "values":
+                return DictItems(recv, "values")
             if name == "keys":
                 return recv if getattr(ty, "keys_as_self", True) else None
             if name == "copy":
@@ -800,7 +802,7 @@ def lift_ns(x):
     from .dsl import SpecFn, Opaque, Lazy
     if isinstance(x, Lazy):
         x = x.get()
-    if isinstance(x, (V, PyTup, PyFn, PyConstObj, DictItems, PyDict, PyIte)):
+    if isinstance(x, (V, PyTup, PyFn, PyConstObj, DictItems, PyDict, PyIte, PyCat)):
         return x
     if isinstance(x, SpecFn):
         return PyFn(x.name, x.sym_call)
